@@ -73,7 +73,121 @@ theorem exit_truth (o : Options) (s0 : DState) (h0 : s0.hadFailure = false ∧ s
       obtain ⟨ev, hev, hbe⟩ := hb
       rw [h.2 ev hev] at hbe; cases hbe
 
+/-! ### reject files: what is written earlier in a run is not lost (`RejectFiles`, `openRejects` / `writeRejects`)
+
+    Two sections for one file, or `-r FILE` with several targets, write their rejects to the same file.  The first opening of a
+    reject file in a run replaces what was there before the run (`creat`: O_TRUNC); every later one adds to it (`fopen(…, "a")`). -/
+
+/-- `creat` of a path that is not in the tree (its directory is) makes an empty regular file -/
+theorem creat_fresh (fs : Fs) (q : Bytes) (hnone : fs.lookup q = none) (hdir : fs.dirExists (parentOf q) = true) :
+    fs.apply (.creat q) = .ok (fs.set q (.file [] (0o666 - (0o666 &&& fs.umask)))) := by
+  have hst : fs.stat q = none := by unfold Fs.stat; rw [hnone]
+  simp only [Fs.apply, hst, hdir]; rfl
+
+/-- `creat` of a regular file one may write to truncates it and keeps its mode -/
+theorem creat_existing (fs : Fs) (q old : Bytes) (m : Nat) (hfile : fs.lookup q = some (.file old m))
+    (hdir : fs.dirExists (parentOf q) = true) (hw : fs.isRoot = true ∨ m / 128 % 2 = 1) :
+    fs.apply (.creat q) = .ok (fs.set q (.file [] m)) := by
+  have hc : (fs.isRoot || m / 128 % 2 == 1) = true := by
+    rcases hw with h | h <;> simp [h]
+  simp only [Fs.apply, Fs.stat_of_file hfile, hfile, hdir, hc]; rfl
+
+/-- writing to a regular file that is there adds to it -/
+theorem opWrite_file (p b : Bytes) (s : DState) (old : Bytes) (m : Nat) (hf : s.faultAt = none)
+    (hl : s.fs.lookup (absPath s p) = some (.file old m)) :
+    ∃ s', (opWrite p b).run s = (.ok (), s') ∧ s'.fs.lookup (absPath s p) = some (.file (old ++ b) m) ∧
+      s'.cwd = s.cwd ∧ s'.faultAt = none ∧ s'.rejWritten = s.rejWritten := by
+  rw [run_opWrite]
+  cases hb : b.isEmpty
+  · have happ : s.fs.apply (.write (absPath s p) b) = .ok (s.fs.set (absPath s p) (.file (old ++ b) m)) := by
+      simp only [Fs.apply, hl]
+    rw [if_neg (by simp), doOp_run_ok hf happ]
+    exact ⟨_, rfl, Fs.lookup_set_self _ _ _, rfl, hf, rfl⟩
+  · have : b = [] := by simpa using hb
+    subst this
+    rw [if_pos rfl]
+    exact ⟨s, rfl, by rw [List.append_nil]; exact hl, rfl, hf, rfl⟩
+
+/-- **the first rejects written to a file in a run replace what was there before the run**: `rej` has not been written in this run;
+    the `creat` works and yields an empty regular file with mode `m` at that path (`creat_fresh`: the file was not there;
+    `creat_existing`: it was, with any content — which is gone).  Afterwards the file holds exactly `b`, and the run remembers it. -/
+theorem writeRejects_first (rej b : Bytes) (s : DState) (m : Nat) (hf : s.faultAt = none)
+    (hnot : s.rejWritten.contains rej = false)
+    (hcreat : s.fs.apply (.creat (absPath s rej)) = .ok (s.fs.set (absPath s rej) (.file [] m))) :
+    ∃ s', (writeRejects rej b).run s = (.ok (), s') ∧ s'.fs.lookup (absPath s rej) = some (.file b m) ∧
+      s'.rejWritten.contains rej = true ∧ s'.cwd = s.cwd ∧ s'.faultAt = none := by
+  unfold writeRejects
+  rw [run_bind, openRejects_run, if_neg (by rw [hnot]; simp),
+    doOp_run_ok (s := { s with rejWritten := s.rejWritten ++ [rej] }) hf hcreat]
+  simp only []
+  obtain ⟨s', h1, h2, h3, h4, h5⟩ := opWrite_file rej b
+    { s with rejWritten := s.rejWritten ++ [rej], fs := s.fs.set (absPath s rej) (.file [] m),
+             trace := s.trace ++ [.creat (absPath s rej)], opCount := s.opCount + 1 } [] m hf (Fs.lookup_set_self _ _ _)
+  refine ⟨s', h1, ?_, ?_, h3, h4⟩
+  · rw [List.nil_append] at h2; exact h2
+  · rw [h5]; simp
+
+/-- **later rejects for the same file are added**: `rej` has been written in this run and is still there (a regular file): no `creat`
+    (no truncation), the bytes go to the end -/
+theorem writeRejects_again (rej b : Bytes) (s : DState) (old : Bytes) (m : Nat) (hf : s.faultAt = none)
+    (hin : s.rejWritten.contains rej = true) (hl : s.fs.lookup (absPath s rej) = some (.file old m)) :
+    ∃ s', (writeRejects rej b).run s = (.ok (), s') ∧ s'.fs.lookup (absPath s rej) = some (.file (old ++ b) m) ∧
+      s'.rejWritten = s.rejWritten ∧ s'.cwd = s.cwd ∧ s'.faultAt = none ∧
+      ∀ op ∈ s'.trace.drop s.trace.length, ∀ q, op ≠ FsOp.creat q := by
+  unfold writeRejects
+  rw [run_bind, openRejects_run, if_pos hin, Fs.stat_of_file hl, if_pos (by rfl)]
+  simp only []
+  obtain ⟨s', h1, h2, h3, h4, h5⟩ := opWrite_file rej b s old m hf hl
+  refine ⟨s', h1, h2, h5, h3, h4, ?_⟩
+  rw [run_opWrite] at h1
+  split at h1
+  · cases h1; simp
+  · rcases doOp_cases h1 with ⟨_, fs', _, rfl⟩ | ⟨h, _⟩
+    · intro op hop q
+      have : op = FsOp.write (absPath s rej) b := by simpa using hop
+      rw [this]; exact fun h => by cases h
+    · cases h
+
+/-- **nothing written earlier in the run is lost**: two writes of rejects to the same file in a row (no fault), the first one being the
+    first of the run: the file holds `b1 ++ b2`, with the mode `m` the first `creat` gave it -/
+theorem writeRejects_twice (rej b1 b2 : Bytes) (s : DState) (m : Nat) (hf : s.faultAt = none)
+    (hnot : s.rejWritten.contains rej = false)
+    (hcreat : s.fs.apply (.creat (absPath s rej)) = .ok (s.fs.set (absPath s rej) (.file [] m))) :
+    ∃ s', (do writeRejects rej b1; writeRejects rej b2 : DM Unit).run s = (.ok (), s') ∧
+      s'.fs.lookup (absPath s rej) = some (.file (b1 ++ b2) m) := by
+  obtain ⟨s1, h1, l1, r1, c1, f1⟩ := writeRejects_first rej b1 s m hf hnot hcreat
+  rw [← absPath_cwd c1] at l1
+  obtain ⟨s2, h2, l2, -⟩ := writeRejects_again rej b2 s1 b1 m f1 r1 l1
+  rw [absPath_cwd c1] at l2
+  refine ⟨s2, ?_, l2⟩
+  rw [run_bind, h1]
+  exact h2
+
+/-- the same, spelled out for a reject file that was there before the run with other content: that content is replaced by the first
+    write and only by the first -/
+theorem writeRejects_twice_existing (rej b1 b2 old : Bytes) (s : DState) (m : Nat) (hf : s.faultAt = none)
+    (hnot : s.rejWritten.contains rej = false)
+    (hfile : s.fs.lookup (absPath s rej) = some (.file old m))
+    (hdir : s.fs.dirExists (parentOf (absPath s rej)) = true) (hw : s.fs.isRoot = true ∨ m / 128 % 2 = 1) :
+    ∃ s', (do writeRejects rej b1; writeRejects rej b2 : DM Unit).run s = (.ok (), s') ∧
+      s'.fs.lookup (absPath s rej) = some (.file (b1 ++ b2) m) :=
+  writeRejects_twice rej b1 b2 s m hf hnot (creat_existing _ _ old m hfile hdir hw)
+
+/-- and for a reject file that was not there -/
+theorem writeRejects_twice_fresh (rej b1 b2 : Bytes) (s : DState) (hf : s.faultAt = none)
+    (hnot : s.rejWritten.contains rej = false)
+    (hnone : s.fs.lookup (absPath s rej) = none)
+    (hdir : s.fs.dirExists (parentOf (absPath s rej)) = true) :
+    ∃ s', (do writeRejects rej b1; writeRejects rej b2 : DM Unit).run s = (.ok (), s') ∧
+      s'.fs.lookup (absPath s rej) = some (.file (b1 ++ b2) (0o666 - (0o666 &&& s.fs.umask))) :=
+  writeRejects_twice rej b1 b2 s _ hf hnot (creat_fresh _ _ hnone hdir)
+
 end PatchModel.C04x
 
 #print axioms PatchModel.C04x.exit_range
 #print axioms PatchModel.C04x.exit_truth
+#print axioms PatchModel.C04x.writeRejects_first
+#print axioms PatchModel.C04x.writeRejects_again
+#print axioms PatchModel.C04x.writeRejects_twice
+#print axioms PatchModel.C04x.writeRejects_twice_existing
+#print axioms PatchModel.C04x.writeRejects_twice_fresh
